@@ -31,7 +31,7 @@ CLAIMED = {
             "Exploration: every generated history is re-run with sides swapped, after recreate_variables, both, and as p(t) = p(u); success and resolved values must agree.",
             "Each variant is additionally compared with the reference unifier.", "DESIGN.md §4 C07"),
     "C08": ("invariant checking over generated alias-heavy unification histories (stateful, history as vec of ops) + exhaustive alias histories",
-            "Exploration: histories of up to 8 equations biased to variable/variable steps; after every step no binding chain may return to its start (own walker and a bind hook that observes the cycle at creation); all histories of 1-4 alias steps over 3 variables enumerated.",
+            "Exploration: histories of up to 8 equations biased to variable/variable steps, and (1 case in 8) alias chains over 8-64 variables (runs of $Vi = $Vi+1 in either direction and operand order, cross links, the two ends of a run related in either order); after every step no binding chain may return to its start (own walker and a bind hook that observes the cycle at creation); all histories of 1-4 alias steps over 3 variables enumerated.",
             "Uses the verif-hooks bind observer to turn non-termination into an observable failure.", "DESIGN.md §4 C08"),
     "C09": ("differential testing against the reference unifier's wildcard rule on generated histories containing `$_`",
             "Exploration: histories that contain `$_` at top level, as argument, list element and tail; same success and resolved values as the reference, and bare-`$_` steps leave the binding vector unchanged.",
@@ -58,14 +58,14 @@ CLAIMED.update({
             "Exploration: sequences of 0-5 elements incl. nested/empty lists in last position and tails, built by parse_linked_list, recreate_variables, append, include, exclude (inputs also written with a tail variable that an earlier unification bound to the rest of the sequence) and make_linked_list; node chain, counts, tail flags, terminator and decoded elements are checked.",
             "A lone list argument to make_linked_list is treated as unspecified and discarded.", "DESIGN.md §4 C15"),
     "C16": ("differential testing of append against a reference function on generated argument tuples inside generated clauses",
-            "Exploration: 1-4 inputs (lists with nested/empty/list-valued last elements, bound-variable elements, tails bound through chains; atoms, numbers, complex terms) and three kinds of Out; compared with the reference append via the reference solver.",
+            "Exploration: 1-4 inputs (lists with nested/empty/list-valued last elements, bound-variable elements, tails bound through chains, lists built element by element by a recursive copy/2 rule - a chain of same-named tail variables; atoms, numbers, complex terms; up to 9 inputs and 32 elements) and three kinds of Out; compared with the reference append via the reference solver.",
             "Inputs are closed lists / bound values (documented domain).", "DESIGN.md §4 C16"),
     "C17": ("differential testing of count/include/exclude/functor/join against reference functions on generated scenarios",
             "Exploration: generated lists (bound tails, bound-variable elements), filter patterns with variables and $_, complex terms of arity 0-4 with exact/prefix*/variable functor arguments, word/punctuation sequences; every variable is exposed in the rule head so a leaked binding shows.",
             "Reference functions are written from the documentation.", "DESIGN.md §4 C17"),
     "C18": ("crash oracle over grammar-generated, mutated and random strings fed to all nine parser entry points (proptest-driven; about 1 million strings in the quick tier, 24 million in the thorough tier)",
-            "Exploration: valid text, 1-3 character mutations of valid text and of the repository's test strings, random token soup; any panic is a violation identified by entry point and location.",
-            "Non-termination of a parser would be reported by the watchdog as inconclusive, not as a violation.", "DESIGN.md §4 C18"),
+            "Exploration: valid text, 1-3 character mutations of valid text and of the repository's test strings, random token soup, 10-70 levels of nested terms / lists / functions / parentheses; any panic is a violation identified by entry point and location, and so is a single input on which the parsers burn more than 20 s of CPU time (the property includes termination).",
+            "Termination is judged by CPU time of one case (20 s; the parsers take microseconds), never by wall time.", "DESIGN.md §4 C18"),
     "C19": ("round-trip testing (render -> parse -> compare with the API-built value -> Display) over grammar-generated terms, goals and rules + exhaustive small terms and bodies",
             "Exploration: canonical text and accepted variants (tight commas, quoted atoms, infix comparison/arithmetic, bare zero-arity, redundant parentheses) must parse to the value built through the API from the same AST, and Display must reproduce the canonical text; small terms and and/or bodies enumerated completely.",
             "Canonical text parenthesises every nested operator goal except a conjunction inside a disjunction.", "DESIGN.md §4 C19"),
@@ -82,7 +82,7 @@ CLAIMED.update({
             "Exploration: solve/solve_all results must be a prefix of the real answers, complete unless followed by the timeout message, which may only appear after >= 0.95 s; fast queries must never time out; thousands of microsecond queries ending in every possible way must not leave a timer that stops a later query; for generated programs (cut, not, and/or, built-ins) the stop flag is raised at 4 generated search steps each and solve_all / successive solve calls must still report a prefix of the answers, a timeout message only if the flag was raised, and never panic; solve_all / solve on nodes that were made before another query timed out must not report a timeout; asking a timed-out node again needs another second before it may say timeout again.",
             "The real timer thread's interleavings are sampled by real time; the injected-stop class owns the schedule at the granularity of next_solution entries (the only places the engine reads the flag are behind them). Overloaded-machine timings are counted as inconclusive discards.", "DESIGN.md §4 C23"),
     "C24": ("generated programs and call histories (proptest) replayed through the public API under Miri as the undefined-behaviour detector (Stacked Borrows, data races, out-of-bounds, use-after-free)",
-            "Exploration: about 100 (quick) / 800 (thorough) generated histories - enumerate and re-ask, solve_all + solve, abandoned query + second query, parse + solve, timer firing during a search, a cut executing underneath not(...)/time(...), loading the program from a file, adding rules for new predicates between two runs of a query - executed under Miri in 16 parallel processes; any Undefined Behavior diagnostic is a violation identified by diagnostic kind and source location. The shallowest check of the set: hundreds of histories, not millions.",
+            "Exploration: about 100 (quick) / 800 (thorough) generated histories - enumerate and re-ask, solve_all + solve, abandoned query + second query, parse + solve, timer firing during a search, a cut executing underneath not(...)/time(...), loading the program from a file, adding rules for new predicates between two runs of a query, one-rule programs from the C16/C17 list built-in generators - executed under Miri in 16 parallel processes; any Undefined Behavior diagnostic is a violation identified by diagnostic kind and source location. The shallowest check of the set: hundreds of histories, not millions.",
             "Miri's Stacked Borrows model is taken as the definition of aliasing UB; leaks are ignored; the timer thread's schedule is sampled (Miri scheduler seed = VERIF_SEED + shard), not enumerated. Needs `cargo +nightly miri` (pre-installed).", "DESIGN.md §4 C24"),
 })
 
